@@ -311,5 +311,5 @@ Definition check_c18 (c : c18_case) : codes :=
            ++ (if inverted l then [11] else [])
            ++ (if overtaken l || inverted l then [] else [13]))
   ++ (if negb (wf_reports (k_evs c)) || impl_last_ok h (k_obs c) then []
-      else if inverted l then [11] else [12])
+      else if inverted l then [] (* already reported as 11 by the order monitor *) else [12])
   ++ (if impl_terminal_ok h0 None (k_evs c) (k_obs c) then [] else [15]).
